@@ -2,6 +2,7 @@
 // All enumeration / reference models / verdicts live in /verif/vp (Python),
 // except the schedule explorers, which drive real threads and live here.
 mod evalsrv;
+mod parsesrv;
 mod util;
 
 fn main() {
@@ -10,6 +11,8 @@ fn main() {
     let rest = &args[2.min(args.len())..];
     match driver {
         "eval" => evalsrv::main(rest),
+        "parse" => parsesrv::main(rest),
+        "parsedump" => parsesrv::debug_dump(&rest[0]),
         _ => {
             eprintln!("usage: svh <eval> ...");
             std::process::exit(2);
